@@ -176,6 +176,12 @@ fn one_variant<V: Variant>(ctx: &mut Ctx, tier: Tier) {
     for (s, _) in &slots {
         seeds.push(*s);
     }
+    // seeds on which an invertible candidate misses the Gram-Schmidt bound by less than 1 (in 16822.41): a norm
+    // test that is rounded or compared slightly too leniently accepts exactly these
+    let near: Vec<u64> = crate::util::gamma_near_miss_seeds(n).into_iter().take(if tier.thorough() { 6 } else if n == 512 { 3 } else { 2 }).collect();
+    let bound = 1.3689 * Q as f64;
+    let confirmed = near.par_iter().filter(|&&s| crate::util::candidate_walk(n, s, 64).iter().any(|(inv, g)| *inv && *g > bound && *g <= bound + 1.0)).count();
+    seeds.extend(near.iter().cloned());
     seeds.sort();
     seeds.dedup();
     let gso_every = match (n, tier.thorough()) {
@@ -205,6 +211,7 @@ fn one_variant<V: Variant>(ctx: &mut Ctx, tier: Tier) {
     part.set("keys_with_dense_gso", json!(t.gso_keys));
     part.set("seeds_whose_first_f_is_not_invertible", json!(nsteer));
     part.set("seeds_whose_first_f_vanishes_at_slot_0_1_mid_last", json!(nslot));
+    part.set("seeds_with_a_candidate_within_1_above_the_gram_schmidt_bound", json!({"seeds": near, "confirmed_by_the_reference_walk": confirmed}));
     part.set("leaf_range_observed", json!([t.min_leaf, t.max_leaf]));
     part.set("worst_leaf_vs_gso_relative_deviation", json!(t.worst_leaf_dev));
     for (o, c) in &t.outcomes {
